@@ -154,8 +154,25 @@ func calleeName(c *ssa.CallCommon) string {
 	return c.Value.Name()
 }
 
+// siteContract: the contract whose site clauses apply to this frame: its own, or — for a
+// closure lexically nested in the function under verification that is executed inline — the
+// top function's (ordinals then count sites inside the closure).
+func (fr *Frame) siteContract() *Contract {
+	if fr.contract != nil {
+		return fr.contract
+	}
+	if fr.top.contract != nil {
+		for p := fr.fn.Parent(); p != nil; p = p.Parent() {
+			if p == fr.top.fn {
+				return fr.top.contract
+			}
+		}
+	}
+	return nil
+}
+
 func (fr *Frame) siteCall(c *ssa.CallCommon, pos token.Pos, args []Val, before bool, res *Val) {
-	ct := fr.contract
+	ct := fr.siteContract()
 	if ct == nil || len(ct.Sites) == 0 {
 		return
 	}
@@ -274,11 +291,15 @@ func (fr *Frame) ghostAssign(lhs *SExpr, rhs Val, env *Env) {
 	srt := specSort(gf.GType)
 	vc.family(fam, "(Array Int "+srt+")")
 	cur := vc.lookup(fr.cur.heap, fam)
-	fr.cur.heap = vc.heapSet(fr.cur.heap, fam, vc.define(fam, vc.famSort[fam], "(store "+cur+" "+obj.L[0]+" "+rhs.T()+")"))
+	key := obj.L[0]
+	if _, isI := T.Underlying().(*types.Interface); isI && len(obj.L) == 2 {
+		key = obj.L[1] // ghost state of an interface value hangs off its payload
+	}
+	fr.cur.heap = vc.heapSet(fr.cur.heap, fam, vc.define(fam, vc.famSort[fam], "(store "+cur+" "+key+" "+rhs.T()+")"))
 }
 
 func (fr *Frame) siteStore(in *ssa.Store, p, v Val, before bool) {
-	ct := fr.contract
+	ct := fr.siteContract()
 	if ct == nil || len(ct.Sites) == 0 {
 		return
 	}
